@@ -54,6 +54,17 @@ def cabs(re, im):
     return abs(im) * math.sqrt(1.0 + (re / im) * (re / im))
 
 
+def boundary_vertices(d):
+    if "_bverts" not in d:
+        cnt = {}
+        for t in d["T"]:
+            for a, b in ((t[0], t[1]), (t[1], t[2]), (t[2], t[0])):
+                k = (min(a, b), max(a, b))
+                cnt[k] = cnt.get(k, 0) + 1
+        d["_bverts"] = set(v for e, c in cnt.items() if c == 1 for v in e)
+    return d["_bverts"]
+
+
 def mesh_size_oracle(p, d, lines, arcs):
     """exact checks on the produced mesh"""
     X = [(Fraction(x), Fraction(y)) for (x, y) in d["X"]]
@@ -61,6 +72,7 @@ def mesh_size_oracle(p, d, lines, arcs):
     # element areas against the region's area constraint actually handed to Triangle and the label's mesh size
     labels = [l for l in p["labels"]]
     PI_HI = Fraction(3141592653589794, 10 ** 15)      # > pi : sound direction for "area <= pi d^2 / 4"
+    deferred = None
     for ei, (t, a) in enumerate(zip(d["T"], d["A"])):
         lab = labels[int(a) - 1] if 1 <= int(a) <= len(labels) else None
         if lab is None:
@@ -70,8 +82,13 @@ def mesh_size_oracle(p, d, lines, arcs):
             (xa, ya), (xb, yb), (xc, yc) = X[t[0]], X[t[1]], X[t[2]]
             area = ((xb - xa) * (yc - ya) - (xc - xa) * (yb - ya)) / 2
             if area > PI_HI * Fraction(dmax) ** 2 / 4 * (1 + Fraction(1, 10 ** 9)):
-                return "element %d of block label %d has area %.6g > pi d^2/4 = %.6g (mesh size d=%g)" % (
+                msg = "element %d of block label %d has area %.6g > pi d^2/4 = %.6g (mesh size d=%g)" % (
                     ei, int(a) - 1, float(area), math.pi * dmax * dmax / 4, dmax)
+                if p["features"][0].startswith("periodic") and any(v in boundary_vertices(d) for v in t):
+                    # the final Triangle pass of DoPeriodicBCTriangulation runs with -Y: see known_findings.json
+                    deferred = deferred or (msg + " [periodic-path:-Y:oversize-element-on-exterior-boundary]")
+                    continue
+                return msg
     # mesh edges on a line with a spacing
     P = poly["points"]
     pm = meshlib.map_points(d)
@@ -105,17 +122,23 @@ def mesh_size_oracle(p, d, lines, arcs):
                 ang = abs(math.atan2((x1 - x0) * (y2 - y0) - (y1 - y0) * (x2 - x0), (x1 - x0) * (x2 - x0) + (y1 - y0) * (y2 - y0)))
                 if ang < bound:
                     return "element %d has an angle of %.4f deg < minimum angle %.4g deg" % (ei, math.degrees(ang), amin)
-    return None
+    return deferred
 
 
 def correspond(ctx):
     rng = ctx.rng
-    count = 12 if ctx.quick() else 100
+    count = 16 if ctx.quick() else 100
     exprs, cases, feats = [], [], {}
+    nper = 0
     for k in range(count):
         p = geomgen.gen_any(rng, k + 1, quick=True)
         if k % 4 == 3:
             p = geomgen.fam_rounded(rng, ["fee", "feh", "fem"][k % 3], True)
+        if k >= count - 4:
+            # (anti)periodic partner arcs asking for different segment angles, finer one listed first / second
+            j = k - (count - 4)
+            p = geomgen.fam_periodic_arcs(rng, ["fee", "feh", "fem"][k % 3], True, order=["left-first", "right-first"][j % 2],
+                                          segs=[(5.0, 15.0), (15.0, 5.0)][j // 2])
         p["no_acute_angles"] = p["features"][0] in ("circle-in-square", "annulus", "stadium", "rect-box", "rect-family")
         for ft in p.get("features", []):
             feats[ft] = feats.get(ft, 0) + 1
@@ -123,10 +146,15 @@ def correspond(ctx):
         if msg:
             ctx.fail(msg, problem=p); continue
         e, lines, arcs = model_inputs(p)
-        exprs.append(e); cases.append((p, d, lines, arcs))
-        msg = mesh_size_oracle(p, d, lines, arcs)
+        msg = c01.arc_oracle(p, d) or mesh_size_oracle(p, d, lines, arcs)
         if msg:
             ctx.fail("mesh does not honour the request: " + msg, problem=p)
+        if p["features"][0].startswith("periodic"):
+            # the interleaved subdivision of (anti)periodic partners is C07's model (Pbc.v); here the
+            # requested sizes are checked on the result
+            nper += 1
+            continue
+        exprs.append(e); cases.append((p, d, lines, arcs))
     res = vlib.coq_eval(HEADER, exprs, shard=20)
     dis = []
     nb = tot = 0
@@ -163,6 +191,7 @@ def correspond(ctx):
                 ctx.fail("arc %d of span %g with max segment angle %g is replaced by %d chords instead of %d" % (ai, a[2], a[3], n, a[4]), problem=p)
     cov = ctx.res.cov
     cov["evaluations"] = count
+    cov["periodic_problems_oracle_only"] = nper
     cov["distinct_nontrivial"] = len(set(json.dumps(c[0], sort_keys=True, default=str) for c in cases))
     cov["rule"] = ("generated geometries with line spacings, arc segment angles, label mesh sizes, minimum angles 1-33 deg, smart "
                    "mesh on/off; PSLG of the real fmesher (--write-poly) vs. the float reading of Discretize.v; exact-rational "
